@@ -455,7 +455,7 @@ fn loop_device_too_small(rep: &Report, seed: u64) {
 pub fn run(tier: Tier, seed: u64) -> i32 {
     let rep = Report::new("C14", "exploration", tier, seed);
     let cells = all_cells();
-    let reps = tier.pick(6, 30);
+    let reps = tier.pick(6, 90);
     let total = cells.len() * reps;
     let res = par_map(total, crate::util::ncpu(), |j| {
         let cell = cells[j % cells.len()];
